@@ -14,7 +14,7 @@ inductive JKind where
   deriving DecidableEq, Repr, Inhabited
 
 inductive MKind where
-  | lea | mov | addi8 | movi32 | cmpi16
+  | lea | mov | addi8 | movi32 | cmpi16 | ldeax | steax | ldrax
   deriving DecidableEq, Repr, Inhabited
 
 inductive AKind where
@@ -36,6 +36,9 @@ def MKind.shape (arch : Arch) : MKind → MShape
   | .addi8  => { lead := [0x83#8, 0x05#8], imm := [0x12#8] }
   | .movi32 => { lead := [0xC7#8, 0x05#8], imm := [0x44#8, 0x33#8, 0x22#8, 0x11#8] }
   | .cmpi16 => { lead := [0x66#8, 0x81#8, 0x3D#8], imm := [0x34#8, 0x12#8] }
+  | .ldeax  => { lead := [0x8B#8, 0x05#8], imm := [] }                                   -- mov eax,[L+d]
+  | .steax  => { lead := [0x89#8, 0x05#8], imm := [] }                                   -- mov [L+d],eax
+  | .ldrax  => { lead := (if arch = .x64 then [0x48#8] else []) ++ [0x8B#8, 0x05#8], imm := [] }   -- mov rax,[L+d] (eax in 32-bit mode)
 
 /-- the same menu with an absolute memory operand: lea zax,[A] / mov ecx,[A] / add dword [A],0x12 / mov dword [A],0x11223344 / cmp word [A],0x1234 -/
 def MKind.ashape (arch : Arch) : MKind → AShape
@@ -44,6 +47,10 @@ def MKind.ashape (arch : Arch) : MKind → AShape
   | .addi8  => { pp := [], rex := none, opc := [0x83#8], opReg := 0, imm := [0x12#8], isLea := false }
   | .movi32 => { pp := [], rex := none, opc := [0xC7#8], opReg := 0, imm := [0x44#8, 0x33#8, 0x22#8, 0x11#8], isLea := false }
   | .cmpi16 => { pp := [0x66#8], rex := none, opc := [0x81#8], opReg := 7, imm := [0x34#8, 0x12#8], isLea := false }
+  | .ldeax  => { pp := [], rex := none, opc := [0x8B#8], opReg := 0, imm := [], isLea := false, moffs := some (0xA1#8, 4) }
+  | .steax  => { pp := [], rex := none, opc := [0x89#8], opReg := 0, imm := [], isLea := false, moffs := some (0xA3#8, 4) }
+  | .ldrax  => { pp := [], rex := if arch = .x64 then some 0x48#8 else none, opc := [0x8B#8], opReg := 0, imm := [], isLea := false,
+                 moffs := some (0xA1#8, if arch = .x64 then 8 else 4) }
 
 /-- menu: b / bl / b.eq / cbz x1 / tbz w2,#3 / adr x3 / adrp x4 / ldr x5,[L,#a] (opcode word with a zero field) -/
 def AKind.opcode : AKind → BitVec 32
